@@ -14,6 +14,8 @@ def run(rep: Report, repo: Repo, tier: str) -> None:
     protocol.rule_flag_independence(rep, repo, "C08-R1", "C08-R2")
     tables.rule_flag_tables(rep, repo, "C08-R3")
     protocol.rule_top_addressing(rep, repo, "C08-R4")
+    from . import render
+    render.rule_member_independence(rep, repo, "C08-R5")
     if tier == "thorough":
         from . import trace_rules
         trace_rules.rule_flag_traces(rep, repo, "C08-I1")
